@@ -9,7 +9,46 @@ def pipe(ctx, verdict, cases, name="wktenc"):
         verdict.add(name, v["sig"], cases[idx], dict(text=v["text"]))
 
 
-PIPES = {"wktenc": pipe}
+def number_pipe(ctx, verdict, cases, name="wktnum"):
+    """The number clause: with no digit limit every ordinate is written as a plain decimal that an independent reader
+    maps back to the same float64 - decided exactly by Apalache (Decimal!ParsesBack) on the literal as written; the
+    library's own parser must return the same bits (recorded by the driver as the exact value of the re-parsed point)."""
+    import os
+    import re
+    from props import c18, exact_common as ec
+    lit = re.compile(r"^(-?)(\d+)(?:\.(\d+))?$")
+    obs = list(vlib.run_driver(ctx, "digits", cases, for_tlc=False))
+    exprs, sigs, flat = [], [], []
+    for c, o in zip(cases, obs):
+        for v, row in zip(c["vals"], o.get("rows", [])):
+            m, e = row["x"].split(":")
+            m, e = int(m), int(e)
+            # normalise to a 53-bit mantissa so that 2^k is the unit in the last place (0 stays 0)
+            while m != 0 and abs(m) < (1 << 52) and e > -1074:
+                m, e = m * 2, e - 1
+            k1, k2, k3 = c18.split3(abs(e))
+            parts, why = [], "does-not-parse-back"
+            for l in row["lits"]:
+                if l["src"] != "wkt":
+                    continue
+                mm = lit.match(l["t"])
+                if not mm:
+                    parts, why = ["FALSE"], "malformed-number"
+                    break
+                sign, ip, fp = mm.group(1), mm.group(2), mm.group(3) or ""
+                digits = int(ip + fp) * (-1 if sign else 1)
+                parts.append("ParsesBack(%s, %d, %d, %d, %s, %s, %d, %d)" % (ec.tla_int(m), k1, k2, k3, "TRUE" if e < 0 else "FALSE", ec.tla_int(digits), min(len(fp), 300), max(0, len(fp) - 300)))
+                if m < 0 and not sign or (m == 0 and row["x"] == "0:0" and sign):
+                    parts.append("FALSE")
+                    why = "sign-lost"
+            exprs.append(" /\\ ".join(parts) if parts else "FALSE")
+            sigs.append("wktnum|" + why)
+            flat.append(dict(kind="nums", d=-1, vals=[v]))
+    spec = open(os.path.join(ctx.specdir, "Decimal.tla")).read()
+    return c18.apalache_decimal(ctx, verdict, exprs, flat, sigs, name, spec, per_module=400)
+
+
+PIPES = {"wktenc": pipe, "wktnum": number_pipe}
 
 
 def run(ctx, verdict):
@@ -19,3 +58,8 @@ def run(ctx, verdict):
     vlib.note_cases(ctx, cases, nontrivial=lambda c: len(c["toks"]) > 2)
     ctx.coverage_extra["model_a"] = [dict(cfg=cfg, trees=len(cases), states=r["distinct"])]
     pipe(ctx, verdict, cases)
+    from props import c18, exact_common as ec
+    vals = [v for v in c18.PALETTE if v == v] + c18.seeded_values(ctx.seed + 3, 200 if ctx.quick else 5000)
+    ncases = [dict(kind="nums", d=-1, vals=[ec.to_exact(v) for v in vals[i:i + 20]]) for i in range(0, len(vals), 20)]
+    number_pipe(ctx, verdict, ncases)
+    ctx.coverage_extra["number_clause"] = dict(values=len(vals), checker="Apalache on Decimal!ParsesBack")
